@@ -192,6 +192,7 @@ def run(col, configs, tier):
             n = G.rule_unsafe_inventory(col, facts, PARSE_CRATES, HANDLED, CONTRACTS)
             col.floor("WHO-unsafe", "unsafe call sites inventoried", n, 60)
         guarded(col, steps, facts)
+        guarded(col, G.rule_step_content, facts, PARSE_CRATES)
         guarded(col, G.rule_peek_many, facts)
         guarded(col, cursors, facts)
         guarded(col, G.rule_stackvec, facts)
